@@ -415,3 +415,9 @@ Example c13_ex_effective_option :   (* file says std: c++17-pmr and allocator_ty
   /\ effective_option LkCpp sections sec [99; 97; 115; 116; 95; 102; 111; 114; 109; 97; 116]
      = merged_option sections sec [99; 97; 115; 116; 95; 102; 111; 114; 109; 97; 116].
 Proof. vm_compute. repeat split; congruence. Qed.
+
+Example c13_ex_null_is_an_explicit_value :   (* `options:` with no value is YAML null = an explicit scalar: it replaces the sub-map (stated
+                                                reading, shape conflicts "as the code does"); an empty document (yaml None) is the identity *)
+  du (Node [([111], Node [([97], Leaf false (AInt 1))])]) (Node [([111], Leaf false ANone)]) = Node [([111], Leaf false ANone)]
+  /\ merge_files (Some [([111], Node [([97], Leaf false (AInt 1))])]) [Leaf false ANone] = Some [([111], Node [([97], Leaf false (AInt 1))])].
+Proof. vm_compute. auto. Qed.
